@@ -47,7 +47,7 @@ func (t *XMPPTransport) Connect() (string, error) {
 		t.conn = verifWrapConn(t.conn)
 	}
 
-	t.closeChan = make(chan stanza.StreamClosePacket)
+	t.closeChan = make(chan stanza.StreamClosePacket, 1)
 	t.readWriter = newStreamLogger(t.conn, t.logFile)
 	t.decoder = xml.NewDecoder(bufio.NewReaderSize(t.readWriter, maxPacketSize))
 	t.decoder.CharsetReader = t.Config.CharsetReader
@@ -166,5 +166,9 @@ func (t *XMPPTransport) LogTraffic(logFile io.Writer) {
 }
 
 func (t *XMPPTransport) ReceivedStreamClose() {
-	t.closeChan <- stanza.StreamClosePacket{}
+	// Close() may or may not be waiting for this (the server can end the stream on its own): never block
+	select {
+	case t.closeChan <- stanza.StreamClosePacket{}:
+	default:
+	}
 }
